@@ -11,7 +11,7 @@ peer-table entry per connection - an anonymous or empty announced identity gets 
 reconnecting under the same identity replaces its entry (C04 R04.4, REP backend), both re-evaluated: otherwise one
 client's reply is written to another's connection. Does NOT decide concurrent-client histories (argued from R08.3/R08.4 + C05)."""
 from ..sym import show, walk_expr
-from ..common import short, store_hits, place_text, names_type
+from ..common import is_field, short, store_hits, place_text, names_type
 from .. import pathq
 from . import names
 from .c07 import socket_coroutine, wire_writes, msg_mutations, is_param_msg
@@ -45,6 +45,14 @@ def marker_field(f, ty_suffix):
                     nm = p2.split("::", 1)[1] if p2.startswith("zeromq::") else p2
                     if a2["kind"] == "Struct" and fl["ty"] in (nm, p2) and len(a2["variants"][0]["fields"]) == 1 and is_opt_id(a2["variants"][0]["fields"][0]["ty"]):
                         return "%s.%s" % (fl["name"], a2["variants"][0]["fields"][0]["name"])
+            # ... or in a private sub-struct that groups the socket's state
+            for fl in a["variants"][0]["fields"]:
+                for p2, a2 in f.adts.items():
+                    nm = p2.split("::", 1)[1] if p2.startswith("zeromq::") else p2
+                    if a2["kind"] == "Struct" and fl["ty"] in (nm, p2) and not a2.get("vis", "").startswith("Public"):
+                        for y in a2["variants"][0]["fields"]:
+                            if is_opt_id(y["ty"]):
+                                return "%s.%s" % (fl["name"], y["name"])
     return None
 
 
@@ -177,7 +185,7 @@ def run(ctx, f, rep):
                           "recv without an outstanding request returns Err and reads nothing (reads: %s)" % [short(e.name) for _, e in reads], co.loc())
             # marker cleared only after the last yield on the path
             clear = [i for i, s in enumerate(p.events) if (store_hits(s, mreq)) or
-                     (s.kind == "call" and short(s.name) in ("take", "replace") and s.args and any(isinstance(x, tuple) and x and x[0] == "field" and x[2] == mreq for x in walk_expr(s.args[0])))]
+                     (s.kind == "call" and short(s.name) in ("take", "replace") and s.args and any(is_field(x, mreq) for x in walk_expr(s.args[0])))]
             yields = [i for i, s in enumerate(p.events) if s.kind == "yield"]
             polls = [i for i, s in enumerate(p.events) if pathq.is_poll(s) and (s.name.endswith("}") or "Next" in s.name)]
             if clear:
